@@ -533,4 +533,201 @@ theorem handle_separator_sim (bare : Bool) (s : List Char) (o : NodePathParser.S
       convert_id_mk, create_slice_object_eq, add_new_path_component_eq, ht, hd, hcs] <;>
     (try (constructor <;> simp_all [stateTag, STATE_START_ID, hasSep, hasId, tokOk_nil, compToPy]))
 
+
+/-! ### the loop -/
+open PyGen.dataquery.NodePathParser.parse
+
+theorem strContains_ws (c : Char) :
+    Py.strContains [' ', '\t', '\n', '\r', (Char.ofNat 0xb), (Char.ofNat 0xc)] [c] = isWs c := by
+  have e1 : Char.ofNat 0xb = '\x0b' := by decide
+  have e2 : Char.ofNat 0xc = '\x0c' := by decide
+  simp only [Py.strContains, List.isPrefixOf, isWs, List.isEmpty, Bool.and_true, Bool.or_false, e1, e2]
+  simp only [Bool.or_assoc]
+
+theorem strGetItem_ok {s : List Char} {n : Nat} {c : Char} (h : s[n]? = some c) :
+    Py.strGetItem s (n : Int) = .ok [c] := by
+  simp [Py.strGetItem, Py.strGetItemNat, h]
+
+/-- what one iteration of the translated loop has to establish -/
+def StepOk (bare : Bool) (s : List Char) (n : Nat) (ps : PS) (c : Char) (g : Except Py.Exc Locals) : Prop :=
+  match stepB bare ps c with
+  | .error e => g = .error (toExc e)
+  | .ok ps' => ∃ v', g = .ok v' ∧ Rel bare s v'.self ps' ∧ v'.path_expr = s ∧ v'.self.pos = ((n + 1 : Nat) : Int) ∧
+      digitCount ps'.token ≤ digitCount ps.token + (if isDigit c then 1 else 0)
+
+theorem tokOk_snoc {tok : List Char} {c : Char} (h : TokOk tok) (hc : srcPlain c = true) (hw : isWs c = false) :
+    TokOk (tok ++ [c]) := by
+  intro x hx
+  rcases List.mem_append.1 hx with hx | hx
+  · exact h x hx
+  · simp at hx; subst hx; exact ⟨hc, hw⟩
+
+theorem digitCount_snoc (tok : List Char) (c : Char) :
+    digitCount (tok ++ [c]) = digitCount tok + (if isDigit c then 1 else 0) := by
+  unfold digitCount
+  by_cases h : isDigit c = true <;> simp [List.filter_append, List.filter_cons, h]
+
+
+theorem Rel.withPos {bare : Bool} {s : List Char} {o : NodePathParser.Self} {ps : PS} (h : Rel bare s o ps) (p : Int) :
+    Rel bare s { o with pos := p } ps := by
+  obtain ⟨h1, h2, h3, h4, h5, h6, h7, h8, h9, h10⟩ := h
+  constructor <;> assumption
+
+theorem Rel.snoc {bare : Bool} {s : List Char} {o : NodePathParser.Self} {ps : PS} (h : Rel bare s o ps) (c : Char)
+    (hc : srcPlain c = true) (hw : isWs c = false) :
+    Rel bare s { o with current_token := some (ps.token ++ [c]) } { ps with token := ps.token ++ [c] } := by
+  obtain ⟨h1, h2, h3, h4, h5, h6, h7, h8, h9, h10⟩ := h
+  constructor <;> (try assumption)
+  · rfl
+  · exact tokOk_snoc h10 hc hw
+
+/-- one iteration of the translated `while` body against the model's `stepB` -/
+theorem body_step (bare : Bool) (s : List Char) (v : Locals) (ps : PS) (n : Nat) (c : Char)
+    (hr : Rel bare s v.self ps) (hpe : v.path_expr = s) (hn : v.self.pos = (n : Int)) (hget : s[n]? = some c)
+    (hc : srcPlain c = true) (hd : digitCount ps.token ≤ 4300) :
+    StepOk bare s n ps c (while_1.body v) := by
+  obtain ⟨o, pexpr, pes, c0⟩ := v
+  simp only at hr hpe hn
+  subst hpe
+  have hg := strGetItem_ok hget
+  rw [← hn] at hg
+  have hpos : o.pos + (Int.ofNat 1) = ((n + 1 : Nat) : Int) := by rw [hn]; simp
+  unfold StepOk
+  by_cases hw : isWs c = true
+  · -- a blank: skipped
+    have hb : while_1.body ⟨o, pexpr, pes, c0⟩ = .ok ⟨{ o with pos := o.pos + Int.ofNat 1 }, pexpr, pes, [c]⟩ := by
+      simp [while_1.body, bind, Except.bind, pure, Except.pure, hg, strContains_ws, hw]
+    have hm : stepB bare ps c = .ok ps := by simp [stepB, hw]
+    rw [hb, hm]
+    exact ⟨_, rfl, hr.withPos _, rfl, hpos, by omega⟩
+  have hw' : isWs c = false := by simpa using hw
+  by_cases h1 : c = '@'
+  · subst h1
+    have hst := hr.st
+    by_cases hsp : ps.st = .startParsing
+    · have hb : while_1.body ⟨o, pexpr, pes, c0⟩ =
+          .ok ⟨{ o with current_state := some STATE_START_SUBSET, pos := o.pos + Int.ofNat 1 }, pexpr, pes, ['@']⟩ := by
+        simp [while_1.body, bind, Except.bind, pure, Except.pure, hg, strContains_ws, isWs, hst, hsp, stateTag]
+      have hm : stepB bare ps '@' = .ok { ps with st := .startSubset } := by simp [stepB, isWs, hsp]
+      rw [hb, hm]
+      refine ⟨_, rfl, ?_, rfl, hpos, by simp [isDigit]⟩
+      obtain ⟨k1, k2, k3, k4, k5, k6, k7, k8, k9, k10⟩ := hr
+      constructor <;> (try assumption) <;> simp_all [stateTag, hasSep, hasId]
+    · have hb : while_1.body ⟨o, pexpr, pes, c0⟩ = .error pe := by
+        have : ¬ (stateTag ps.st = STATE_START_PARSING) := by
+          revert hsp; cases ps.st <;> decide
+        simp [while_1.body, bind, Except.bind, pure, Except.pure, hg, strContains_ws, isWs, hst, this, pe]
+      have hm : stepB bare ps '@' = .error .path := by
+        simp [stepB, isWs, hsp]
+      rw [hb, hm]; rfl
+  by_cases h2 : c = '['
+  · subst h2
+    have hs := handle_left_bracket_sim bare pexpr o ps hr
+    have hm0 : stepB bare ps '[' = handleLeftBracket ps := by simp [stepB, isWs]
+    rw [hm0]
+    cases hm : handleLeftBracket ps with
+    | error e =>
+      rw [hm] at hs; simp only [Sim] at hs
+      simp [while_1.body, bind, Except.bind, pure, Except.pure, hg, strContains_ws, isWs, hs]
+    | ok ps' =>
+      rw [hm] at hs; obtain ⟨o', hgo, hr', hp, hdc⟩ := hs
+      have hb : while_1.body ⟨o, pexpr, pes, c0⟩ = .ok ⟨{ o' with pos := o'.pos + Int.ofNat 1 }, pexpr, pes, ['[']⟩ := by
+        simp [while_1.body, bind, Except.bind, pure, Except.pure, hg, strContains_ws, isWs, hgo]
+      rw [hb]
+      exact ⟨_, rfl, hr'.withPos _, rfl, by rw [hp]; exact hpos, by omega⟩
+  by_cases h3 : c = ':' ∨ c = ']'
+  · have hs := handle_colon_sim bare pexpr o ps c h3 hr hd
+    have hm0 : stepB bare ps c = handleColonOrRight ps c := by
+      rcases h3 with h | h <;> subst h <;> simp [stepB, isWs]
+    rw [hm0]
+    cases hm : handleColonOrRight ps c with
+    | error e =>
+      rw [hm] at hs; simp only [Sim] at hs
+      simp [while_1.body, bind, Except.bind, pure, Except.pure, hg, strContains_ws, hw', h1, h2, h3, hs]
+    | ok ps' =>
+      rw [hm] at hs; obtain ⟨o', hgo, hr', hp, hdc⟩ := hs
+      have hb : while_1.body ⟨o, pexpr, pes, c0⟩ = .ok ⟨{ o' with pos := o'.pos + Int.ofNat 1 }, pexpr, pes, [c]⟩ := by
+        simp [while_1.body, bind, Except.bind, pure, Except.pure, hg, strContains_ws, hw', h1, h2, h3, hgo]
+      rw [hb]
+      exact ⟨_, rfl, hr'.withPos _, rfl, by rw [hp]; exact hpos, by omega⟩
+  have h3a : c ≠ ':' := fun h => h3 (Or.inl h)
+  have h3b : c ≠ ']' := fun h => h3 (Or.inr h)
+  by_cases h4 : isSep c = true
+  · have hs := handle_separator_sim bare pexpr o ps c hr
+    have h4s : (c = '/' ∨ c = '.') ∨ c = '>' := by simpa [isSep] using h4
+    have hm0 : stepB bare ps c = handleSeparatorB bare ps c := by
+      simp [stepB, hw', h1, h2, h3a, h3b, h4]
+    rw [hm0]
+    cases hm : handleSeparatorB bare ps c with
+    | error e =>
+      rw [hm] at hs; simp only [Sim] at hs
+      simp [while_1.body, bind, Except.bind, pure, Except.pure, hg, strContains_ws, hw', h1, h2, h3a, h3b, h4s, hs,
+        PATH_SEPARATOR_CHILD, PATH_SEPARATOR_ATTRIB, PATH_SEPARATOR_DESCEND]
+    | ok ps' =>
+      rw [hm] at hs; obtain ⟨o', hgo, hr', hp, hdc⟩ := hs
+      have hb : while_1.body ⟨o, pexpr, pes, c0⟩ = .ok ⟨{ o' with pos := o'.pos + Int.ofNat 1 }, pexpr, pes, [c]⟩ := by
+        simp [while_1.body, bind, Except.bind, pure, Except.pure, hg, strContains_ws, hw', h1, h2, h3a, h3b, h4s, hgo,
+          PATH_SEPARATOR_CHILD, PATH_SEPARATOR_ATTRIB, PATH_SEPARATOR_DESCEND]
+      rw [hb]
+      exact ⟨_, rfl, hr'.withPos _, rfl, by rw [hp]; exact hpos, by omega⟩
+  · -- an ordinary character
+    have h4' : isSep c = false := by simpa using h4
+    have h4s : ¬ ((c = '/' ∨ c = '.') ∨ c = '>') := by simpa [isSep] using h4
+    have hst := hr.st
+    have htok := hr.tok
+    have hdn := digitCount_snoc ps.token c
+    by_cases hacc : ps.st = .startId ∨ ps.st = .subsetSlice0 ∨ ps.st = .subsetSliceX ∨ ps.st = .slice0 ∨ ps.st = .sliceX
+    · have hb : while_1.body ⟨o, pexpr, pes, c0⟩ =
+          .ok ⟨{ o with current_token := some (ps.token ++ [c]), pos := o.pos + Int.ofNat 1 }, pexpr, pes, [c]⟩ := by
+        rcases hacc with h | h | h | h | h <;>
+          simp [while_1.body, bind, Except.bind, pure, Except.pure, hg, strContains_ws, hw', h1, h2, h3a, h3b, h4s,
+            PATH_SEPARATOR_CHILD, PATH_SEPARATOR_ATTRIB, PATH_SEPARATOR_DESCEND, hst, htok, h, stateTag, Py.unwrap,
+            STATE_START_SUBSET, STATE_START_ID, STATE_START_SUBSET_SLICE_0, STATE_START_SLICE_0,
+            STATE_START_PARSING, STATE_START_SUBSET_SLICE_X, STATE_STOP_SUBSET_SLICE, STATE_START_SLICE_X,
+            STATE_STOP_SLICE]
+      have hm : stepB bare ps c = .ok { ps with token := ps.token ++ [c] } := by
+        rcases hacc with h | h | h | h | h <;> simp [stepB, hw', h1, h2, h3a, h3b, h4', h]
+      rw [hb, hm]
+      exact ⟨_, rfl, (hr.snoc c hc hw').withPos _, rfl, hpos, by show digitCount (ps.token ++ [c]) ≤ _; omega⟩
+    by_cases hsp : ps.st = .startParsing
+    · have hsd := handle_separator_sim bare pexpr o ps '>' hr
+      have hm0 : stepB bare ps c = (do
+          let s' ← handleSeparatorB bare ps '>'
+          pure { s' with token := s'.token ++ [c] }) := by
+        simp [stepB, hw', h1, h2, h3a, h3b, h4', hsp]
+      rw [hm0]
+      cases hm : handleSeparatorB bare ps '>' with
+      | error e =>
+        rw [hm] at hsd; simp only [Sim] at hsd
+        simp [while_1.body, bind, Except.bind, pure, Except.pure, hg, strContains_ws, hw', h1, h2, h3a, h3b, h4s,
+          PATH_SEPARATOR_CHILD, PATH_SEPARATOR_ATTRIB, hst, hsp, stateTag,
+          STATE_START_SUBSET, STATE_START_ID, STATE_START_SUBSET_SLICE_0, STATE_START_SLICE_0,
+          STATE_START_PARSING, STATE_START_SUBSET_SLICE_X, STATE_STOP_SUBSET_SLICE, STATE_START_SLICE_X,
+          STATE_STOP_SLICE, hsd, show PATH_SEPARATOR_DESCEND = ['>'] from rfl]
+      | ok ps' =>
+        rw [hm] at hsd; obtain ⟨o', hgo, hr', hp, hdc⟩ := hsd
+        have htok' := hr'.tok
+        have hb : while_1.body ⟨o, pexpr, pes, c0⟩ =
+            .ok ⟨{ o' with current_token := some (ps'.token ++ [c]), pos := o'.pos + Int.ofNat 1 }, pexpr, pes, [c]⟩ := by
+          simp [while_1.body, bind, Except.bind, pure, Except.pure, hg, strContains_ws, hw', h1, h2, h3a, h3b, h4s,
+            PATH_SEPARATOR_CHILD, PATH_SEPARATOR_ATTRIB, hst, hsp, stateTag,
+            STATE_START_SUBSET, STATE_START_ID, STATE_START_SUBSET_SLICE_0, STATE_START_SLICE_0,
+            STATE_START_PARSING, STATE_START_SUBSET_SLICE_X, STATE_STOP_SUBSET_SLICE, STATE_START_SLICE_X,
+            STATE_STOP_SLICE, hgo, htok', Py.unwrap, show PATH_SEPARATOR_DESCEND = ['>'] from rfl]
+        rw [hb]
+        simp only [bind, Except.bind, pure, Except.pure]
+        have hdn' := digitCount_snoc ps'.token c
+        exact ⟨_, rfl, (hr'.snoc c hc hw').withPos _, rfl, by rw [hp]; exact hpos, by show digitCount (ps'.token ++ [c]) ≤ _; omega⟩
+    · have hb : while_1.body ⟨o, pexpr, pes, c0⟩ = .error pe := by
+        have hne : ¬ (stateTag ps.st = STATE_START_ID) ∧ ¬ (stateTag ps.st = STATE_START_SUBSET_SLICE_0) ∧
+            ¬ (stateTag ps.st = STATE_START_SUBSET_SLICE_X) ∧ ¬ (stateTag ps.st = STATE_START_SLICE_0) ∧
+            ¬ (stateTag ps.st = STATE_START_SLICE_X) ∧ ¬ (stateTag ps.st = STATE_START_PARSING) := by
+          revert hacc hsp; cases ps.st <;> decide
+        simp [while_1.body, bind, Except.bind, pure, Except.pure, hg, strContains_ws, hw', h1, h2, h3a, h3b, h4s,
+          PATH_SEPARATOR_CHILD, PATH_SEPARATOR_ATTRIB, PATH_SEPARATOR_DESCEND, hst, hne, pe]
+      have hm : stepB bare ps c = .error .path := by
+        revert hacc hsp
+        cases hps : ps.st <;> simp [stepB, hw', h1, h2, h3a, h3b, h4', hps]
+      rw [hb, hm]; rfl
+
 end Bufr.PathLang
